@@ -517,13 +517,14 @@ static void gen(const std::string& tier, uint64_t seed) {
     fflush(stdout);
     // ---- Miller / Lehmann with the base observable (generator seeded per case, base recomputed): small n with so many seeds that every
     //      base of [2,n-2] resp. [1,n-1] is drawn (liars included); the guards n < 4; strong pseudoprimes / Carmichael numbers / the 64-bit grid
-    for (long n = -3; n < (th ? 1500 : 260); ++n) {
-        long reps = n < 4 ? 2 : (n < 40 ? 6 * n : (th ? 60 : 30));
+    // (each case costs two or three seedings of GMP's Mersenne twister, ~1 ms under the sanitizers: the counts are sized for that)
+    for (long n = -3; n < (th ? 600 : 200); ++n) {
+        long reps = n < 4 ? 2 : (n < 40 ? 5 * n : (th ? 30 : 14));
         for (long sd = 0; sd < reps; ++sd) for (const char* k : {"millers", "lehmanns"}) runv(k, {Integer((int64_t)n), Integer((int64_t)(sd * 7919 + n + 10))});
     }
-    for (auto s : PSP) for (int sd = 0; sd < (th ? 200 : 40); ++sd) for (const char* k : {"millers", "lehmanns"}) runv(k, {Integer(s), Integer((uint64_t)g.below(1u << 30))});
-    for (auto s : CARMICHAEL) for (int sd = 0; sd < (th ? 200 : 40); ++sd) for (const char* k : {"millers", "lehmanns"}) runv(k, {Integer(s), Integer((uint64_t)g.below(1u << 30))});
-    for (size_t i = 0; i < big.size(); i += (th ? 1 : 5)) for (const char* k : {"millers", "lehmanns"}) runv(k, {big[i], Integer((uint64_t)g.below(1u << 30))});
+    for (auto s : PSP) for (int sd = 0; sd < (th ? 60 : 24); ++sd) for (const char* k : {"millers", "lehmanns"}) runv(k, {Integer(s), Integer((uint64_t)g.below(1u << 30))});
+    for (auto s : CARMICHAEL) for (int sd = 0; sd < (th ? 60 : 24); ++sd) for (const char* k : {"millers", "lehmanns"}) runv(k, {Integer(s), Integer((uint64_t)g.below(1u << 30))});
+    for (size_t i = 0; i < big.size(); i += (th ? 4 : 7)) for (const char* k : {"millers", "lehmanns"}) runv(k, {big[i], Integer((uint64_t)g.below(1u << 30))});
     fflush(stdout);
     // ---- Pollard and Lenstra called directly; write; the sieve variant
     for (size_t i = 0; i < fa.size(); i += (th ? 2 : 5)) {
